@@ -1,4 +1,4 @@
-SPECIFICATION GenSpec
+SPECIFICATION GenSpecR
 CONSTANTS
   Leaves <- RealGridLeaves
   Keys <- KeysMC
